@@ -1193,6 +1193,11 @@ func c19Phases(thorough bool) []*c19Phase {
 	ps = append(ps, &c19Phase{Name: "arbitration",
 		Desc:  "1 generation tx (1,2) and (2,1), every split and snapshot set, combined with the LTX replica placed older than / interleaved with / newer than the v3 files; removal of none / every single v3 file; T in latest + (t-1,t,t+1) of every v3 and LTX file",
 		Units: c19Units(c19Hists("upd", 512, g(1, 2), g(2, 1)), []string{"older", "interleaved", "newer"}, false, "all", "v3")})
+	// 2b. Format arbitration across two legacy generations (directory names sort opposite to creation order, so
+	// "the newest legacy file" is not in the last-listed generation).
+	ps = append(ps, &c19Phase{Name: "arbitration-g2",
+		Desc:  "2 generations tx ((1),(1)) and ((2),(1,1)), every split and snapshot set incl. a generation without snapshot, combined with the LTX replica placed older than / interleaved with / newer than the v3 files; removal of none / every single v3 file; T in latest + exact mtime of every file + first-1 + last+1",
+		Units: c19Units(c19Hists("upd", 512, [][]int{{1}, {1}}, [][]int{{2}, {1, 1}}), []string{"older", "interleaved", "newer"}, true, "exact", "v3")})
 	// 3. Three transactions / three indexes, reduced timestamps.
 	ps = append(ps, &c19Phase{Name: "g1-i3-tx3-reduced",
 		Desc:  "1 generation; tx per index in {(3),(1,3),(2,3),(1,1,1),(1,1,2),(1,2,3)}; mode upd; every split; every non-empty snapshot set; removal of none / every single file; T in latest + exact mtime of every file + first-1 + last+1",
